@@ -124,6 +124,7 @@ def emit_tables(pack, knobs=None):
     knobs.setdefault("VF_BUDGET_DEFAULT", 0)
     knobs.setdefault("VF_BUDGET_TOTAL", 0)
     knobs.setdefault("VF_BUFSIZES", "0")
+    knobs.pop("VF_OPS_PER_ACTION", None)
     sc_args = knobs.pop("sc_args", None) or [0]
     for k, v in sorted(knobs.items()):
         out.append("#ifndef %s\n#define %s %s\n#endif\n" % (k, k, v))
@@ -188,16 +189,26 @@ def emit_tables(pack, knobs=None):
 PRE_ACTION = 'vf_act(yy_act, yytext, (long)yyleng, yystart(), yylineno, yyatbol());'
 
 
-def emit_spec(pack, render_kw=None, tables_name="vf_tables.h", driver="vf_driver.h"):
+PRE_ACTION_C99 = ('vf_act(yy_act, yyget_text(yyscanner), (long)yyget_leng(yyscanner), yystart(yyscanner), '
+                  'yyget_lineno(yyscanner), yyatbol(yyscanner));')
+
+
+def emit_spec(pack, render_kw=None, tables_name="vf_tables.h", driver="vf_driver.h", api="NR"):
     render_kw = render_kw or {}
     L = []
     opts = ["noyywrap"] + [o for o in pack.options]
+    if api == "C99":
+        # emit must come first: it selects the back end the other options are interpreted for
+        opts = ['emit="c99"'] + [o for o in opts if not o.startswith("emit")] + ["noyyread", "noyypanic"]
+        if "VF_DEFAULT_INPUT" in "".join(getattr(pack, "cdefs", ())):
+            opts.remove("noyyread")
     L.append("%option " + " ".join(opts))
-    L.append('%%option pre-action="%s"' % PRE_ACTION)
-    L.append('%option user-init="yybegin(vf_cur_sc);"')
+    L.append('%%option pre-action="%s"' % (PRE_ACTION_C99 if api == "C99" else PRE_ACTION))
+    L.append('%%option user-init="%s"' % ("yybegin(vf_cur_sc, yyscanner);" if api == "C99" else "yybegin(vf_cur_sc);"))
     L.append("%{")
     L.append('#include "vf_pre.h"')
     L.append("static int vf_cur_sc;")
+    L.append("#define VF_OPS_PER_ACTION %s" % getattr(pack, "ops_per_action", 1))
     if pack.prologue:
         L.append(pack.prologue)
     L.append("%}")
@@ -257,7 +268,9 @@ def run_pack(flex, pack, workdir, name="s", flex_args=(), api="NR", defs=(), kno
     tn = name + "_tables.h"
     with open(os.path.join(workdir, tn), "w") as f:
         f.write(tables)
-    spec = emit_spec(pack, render_kw, tables_name=tn)
+    pack.cdefs = list(defs)
+    pack.ops_per_action = (knobs or {}).get("VF_OPS_PER_ACTION", 1)
+    spec = emit_spec(pack, render_kw, tables_name=tn, api=api)
     lpath = os.path.join(workdir, name + ".l")
     with open(lpath, "w") as f:
         f.write(spec)
@@ -448,8 +461,9 @@ def ops_action(ops, api="NR"):
         OP_SETBOL: "{ int vf_v = vf_choose(2, 2); yysetbol(vf_v); vf_did_setbol(vf_v, yyatbol()); } break;",
         OP_RETURN: "vf_did_return(); return 1;",
     }
-    L = ["{ switch (vf_op((long)yyleng)) {"]
+    L = ["{ int vf_i; for (vf_i = 0; vf_i < VF_OPS_PER_ACTION; vf_i++) { int vf_o = vf_op((long)yyleng); if (!vf_o) break;",
+         "  switch (vf_o) {"]
     for o in sorted(ops):
         L.append("  case %d: %s" % (o, cases[o]))
-    L.append("  default: break; } }")
+    L.append("  default: break; } } }")
     return "\n".join(L)
